@@ -13,6 +13,12 @@
 //    thread overwrites its own copy of the payload as soon as send() has returned)
 //   RD <payload> | EOF | RERR | HUP | ERR | RET <n> | SHUT | XSHUT | FC | FCD | DFIRE
 //   SR | SP | XSR | XSP | ODESTROY
+//   XRC <t> shut|fc | XRS <t> | XRE <t>     a shutdown() / forceClose() issued on a foreign thread, cut at its
+//       plain load of state_ (XRC runs the REAL member function on a real foreign thread up to its setState),
+//       its plain store (XRS lets it execute setState and run on to the first pthread_mutex_lock of queueInLoop)
+//       and its hand-off (XRE lets it enqueue and return).  TcpConnection.cc is compiled INTO this translation
+//       unit with `setState(s)` rewritten to `setState((verif_stall_store(), (s)))`: no change to the source; only
+//       a thread armed by XRC ever stalls there (technique shared with harness/C02_sys.cc).
 // end
 // kres ::= all | a<k> | eagain | eintr | epipe | econnreset | eother
 // One output line per op:  ok|rejected ev=<e1,e2,..> st=<n> out=<len>:<crc> in=<len>:<crc> wr= rd= reg= pend= wire=<len>:<crc> fin=
@@ -44,6 +50,16 @@
 #include "muduo/net/TimerQueue.h"
 #include "muduo/net/InetAddress.h"
 #include "muduo/base/Logging.h"
+#include "muduo/base/WeakCallback.h"
+#include "muduo/net/Socket.h"
+#include "muduo/net/SocketsOps.h"
+
+static void verif_stall_store();
+// TcpConnection.cc of the tree under test, compiled here with one schedule point in front of every store to
+// state_; only a foreign thread armed by XRC stalls at it
+#define setState(s) setState((verif_stall_store(), (s)))
+#include "muduo/net/TcpConnection.cc"
+#undef setState
 #undef private
 #undef protected
 
@@ -123,6 +139,18 @@ extern "C" int __wrap_pthread_mutex_lock(pthread_mutex_t* m)
   return __real_pthread_mutex_lock(m);
 }
 
+static thread_local bool t_stall_store = false;
+static thread_local sem_t* t_release_store = NULL;
+static void verif_stall_store()
+{
+  if (t_stall_store)
+  {
+    t_stall_store = false;
+    sem_post(&g_reached);
+    sem_wait(t_release_store);
+  }
+}
+
 // ------------------------------------------------------------------ driver state
 static std::vector<string> g_events;
 static string g_wire;
@@ -168,6 +196,17 @@ struct Foreign
   sem_t* release;
 };
 
+// a shutdown()/forceClose() in flight on a foreign thread
+struct Request
+{
+  std::thread th;
+  sem_t* rel_store;   // released by XRS
+  sem_t* rel_enq;     // released by XRE
+  bool passed;        // the thread reached its setState (its state test passed)
+  bool stored;
+  bool finished;      // the member function has returned (test failed, or after XRE)
+};
+
 static void nullOutput(const char*, int) {}
 
 int main()
@@ -177,6 +216,19 @@ int main()
   EventLoop loop;
   TcpConnectionPtr conn;
   std::map<int, Foreign> foreign;
+  std::map<int, Request> requests;
+  auto finishRequest = [](Request& r) {
+    if (!r.finished)
+    {
+      // let the parked call run to its end: its store (if still pending), then its hand-off
+      if (r.passed && !r.stored) { sem_post(r.rel_store); sem_wait(&g_reached); }
+      if (r.passed) sem_post(r.rel_enq);
+      r.finished = true;
+    }
+    if (r.th.joinable()) r.th.join();
+    delete r.rel_store;
+    delete r.rel_enq;
+  };
   bool peerShut = false;
   string line;
   size_t delayed = 0;
@@ -228,14 +280,14 @@ int main()
       // tear down like an owner would, then let outstanding delayed closes fire on the dead object
       for (auto& f : foreign) { if (f.second.parked) sem_post(f.second.release); f.second.th.join(); delete f.second.release; }
       foreign.clear();
+      for (auto& r : requests) finishRequest(r.second);
+      requests.clear();
       g_script.clear();
-      if (conn->channel_->addedToLoop_)
-      {
-        if (conn->state_ == TcpConnection::kConnected || conn->state_ == TcpConnection::kDisconnecting)
-          conn->forceCloseInLoop();
-        else if (!conn->channel_->isNoneEvent())
-          conn->channel_->disableAll();
-      }
+      // (a racy foreign store may have left an unregistered connection in kDisconnecting: close it all the same)
+      if (conn->state_ == TcpConnection::kConnected || conn->state_ == TcpConnection::kDisconnecting)
+        conn->forceCloseInLoop();
+      else if (conn->channel_->addedToLoop_ && !conn->channel_->isNoneEvent())
+        conn->channel_->disableAll();
       loop.doPendingFunctors();
       loop.doPendingFunctors();
       if (conn->channel_->addedToLoop_) conn->channel_->remove();
@@ -253,7 +305,7 @@ int main()
     }
     Channel* ch = conn->channel_.get();
     bool reg = ch->addedToLoop_;
-    static const char* kUserOps[] = {"SEND", "FSC", "FSE", "RET", "SHUT", "XSHUT", "FC", "FCD", "SR", "SP", "XSR", "XSP"};
+    static const char* kUserOps[] = {"SEND", "FSC", "FSE", "RET", "SHUT", "XSHUT", "FC", "FCD", "SR", "SP", "XSR", "XSP", "XRC"};
     bool userOp = false;
     for (size_t u = 0; u < sizeof kUserOps / sizeof kUserOps[0]; ++u) userOp = userOp || k == kUserOps[u];
     if (userOp && conn->state_ == TcpConnection::kConnecting)
@@ -433,6 +485,62 @@ int main()
         // only one timer must expire: nudge the clock to the first deadline exactly
         loop.timerQueue_->handleRead();
         g_now_us = (save > g_now_us ? save : g_now_us) + 1000;
+      }
+    }
+    else if (k == "XRC")
+    {
+      int t = atoi(w[1].c_str());
+      if (requests.count(t)) rejected = true;   // one call at a time per thread
+      else
+      {
+        bool fc = (w[2] == "fc");
+        Request& r = requests[t];
+        r.rel_store = new sem_t; r.rel_enq = new sem_t;
+        sem_init(r.rel_store, 0, 0); sem_init(r.rel_enq, 0, 0);
+        r.passed = r.stored = r.finished = false;
+        TcpConnectionPtr c = conn;
+        bool* atStore = new bool(false);
+        sem_t* rs = r.rel_store; sem_t* re = r.rel_enq;
+        r.th = std::thread([c, fc, atStore, rs, re]() {
+          // stall in front of the store (if the state test passes), then at the first mutex of queueInLoop
+          t_release_store = rs;
+          t_stall_store = true;
+          t_release = re;
+          t_stall = true;
+          t_stalled_once = false;
+          *atStore = true;             // cleared below if the call returns without reaching its store
+          if (fc) c->forceClose(); else c->shutdown();
+          if (t_stall_store) { *atStore = false; t_stall_store = false; sem_post(&g_reached); }   // test failed: no store, no hand-off
+          t_stall = false;
+        });
+        sem_wait(&g_reached);
+        r.passed = *atStore;
+        delete atStore;
+        if (!r.passed) { r.finished = true; r.th.join(); }
+      }
+    }
+    else if (k == "XRS")
+    {
+      int t = atoi(w[1].c_str());
+      auto it = requests.find(t);
+      if (it == requests.end() || it->second.stored) rejected = true;
+      else
+      {
+        it->second.stored = true;
+        if (it->second.passed) { sem_post(it->second.rel_store); sem_wait(&g_reached); }   // runs on to the mutex of queueInLoop
+      }
+    }
+    else if (k == "XRE")
+    {
+      int t = atoi(w[1].c_str());
+      auto it = requests.find(t);
+      if (it == requests.end() || !it->second.stored) rejected = true;
+      else
+      {
+        if (it->second.passed) { sem_post(it->second.rel_enq); it->second.finished = true; it->second.th.join(); }
+        delete it->second.rel_store;
+        delete it->second.rel_enq;
+        requests.erase(it);
       }
     }
     else if (k == "SR") { if (reg) conn->startRead(); else rejected = true; }
